@@ -142,6 +142,52 @@ theorem P_merge_order_independent (cfg : Stog.Cfg ℝ) (ds₁ ds₂ : List (Stog
   simp only [Stog.zip3, Stog.Rows.empty, List.zip_nil_left, List.zipWith_nil_left, List.nil_append]
   exact h.flatMap_right _
 
+/-- a single point "merged": value unchanged, uncertainty sqrt(dy²)/1 = |dy| -/
+def single (t : Pt) : Pt := (t.1, t.2.1, |t.2.2|)
+
+theorem mergeRuns_strict : ∀ (l : List Pt), l.Pairwise (fun a b => a.1 < b.1) → mergeRuns l = l.map single
+  | [], _ => by simp [mergeRuns]
+  | p :: ps, h => by
+    have hp : ∀ t ∈ ps, p.1 < t.1 := (List.pairwise_cons.mp h).1
+    have htw : ps.takeWhile (fun t => decide (t.1 = p.1)) = [] := by
+      cases ps with
+      | nil => rfl
+      | cons q qs =>
+        have : q.1 ≠ p.1 := (hp q (by simp)).ne'
+        simp [List.takeWhile_cons, this]
+    have hdw : ps.dropWhile (fun t => decide (t.1 = p.1)) = ps := by
+      cases ps with
+      | nil => rfl
+      | cons q qs =>
+        have : q.1 ≠ p.1 := (hp q (by simp)).ne'
+        simp [List.dropWhile_cons, this]
+    have ih := mergeRuns_strict ps (List.pairwise_cons.mp h).2
+    rw [mergeRuns]
+    simp only [htw, hdw, List.map_nil, List.sum_nil, List.length_nil, Nat.cast_zero, add_zero, div_one, List.map_cons, ih]
+    congr 1
+    simp only [single, Prod.mk.injEq, true_and]
+    rw [← sq, Real.sqrt_sq_eq_abs]
+
+/-- P: points with pairwise distinct Q are returned as they are, sorted by Q (value unchanged; uncertainty |dy|):
+    merging a single dataset, or re-ingesting an already merged curve, is the identity up to order -/
+theorem P_merge_distinct (pts : List Pt) (hd : (pts.map (·.1)).Nodup) :
+    Stog.mergePts pts = (Stog.sortPts pts).map single := by
+  unfold Stog.mergePts
+  rw [mergeSorted_eq_runs]
+  apply mergeRuns_strict
+  have hs := sortPts_sorted pts
+  have hperm : (Stog.sortPts pts).Perm pts := List.mergeSort_perm pts _
+  have hnd : ((Stog.sortPts pts).map (·.1)).Nodup := (hperm.map _).nodup_iff.mpr hd
+  unfold List.Nodup at hnd
+  rw [List.pairwise_map] at hnd
+  exact (hs.and hnd).imp (fun ⟨h1, h2⟩ => lt_of_le_of_ne h1 h2)
+
+/-- P: a merge between the adds does not change the final merge: `merge_data` leaves the storage sorted, later datasets are
+    appended, and the final merge is that of all contributed points -/
+theorem P_merge_between_adds (a b : List Pt) :
+    Stog.mergePts (Stog.sortPts a ++ b) = Stog.mergePts (a ++ b) :=
+  P_merge_perm_invariant ((List.mergeSort_perm a _).append_right b)
+
 /-- X: a concrete instance: two points share Q = 1 and are averaged -/
 example : meanAt [((2:ℝ), (5:ℝ), (0:ℝ)), (1, 3, 0), (1, 4, 0)] 1 = 7 / 2 := by
   simp [meanAt, List.filter_cons]; norm_num
